@@ -362,6 +362,12 @@ class IterSig:
 DRAIN_EXTERNALS = {'collections.deque'}
 
 
+def is_drain_loop(node, var=None):
+    """`for _ in x: pass` - the loop that consumes x and does nothing else (var: the name x must be, if given)"""
+    return isinstance(node, ast.For) and not node.orelse and all(isinstance(st, ast.Pass) for st in node.body) and \
+        isinstance(node.iter, ast.Name) and (var is None or node.iter.id == var)
+
+
 def is_drain_call(res, call):
     """collections.deque(x, maxlen=0)"""
     if res.external_name(call) in DRAIN_EXTERNALS:
